@@ -167,6 +167,9 @@ type Wire struct {
 	OnFilter func(h *Handle, spec packets.PacketFilterSpec)
 	// OnFirstRead is called (without the lock) at the start of the first Read after each filter install.
 	OnReadStart func(h *Handle)
+	// OnBeforeFilter runs at the start of every SetPacketFilter call, before the queue is drained: what the network
+	// delivered up to this moment (e.g. the SYN-ACK of a dial that has already returned) is in the queue by then
+	OnBeforeFilter func(h *Handle, spec packets.PacketFilterSpec)
 	// Loopback delivers every emitted probe to every handle, like AF_PACKET/ETH_P_ALL does.
 	Loopback bool
 	Mode     FilterMode
@@ -379,6 +382,9 @@ func (s *simSource) SetReadDeadline(t time.Time) error {
 
 func (s *simSource) SetPacketFilter(spec packets.PacketFilterSpec) error {
 	h, w := s.h, s.h.w
+	if cb := w.OnBeforeFilter; cb != nil {
+		cb(h, spec)
+	}
 	w.mu.Lock()
 	now := time.Now()
 	if h.SourceClosed > 0 {
@@ -472,6 +478,9 @@ func (s *simSource) Read(buf []byte) (int, error) {
 				time.Sleep(time.Millisecond)
 			}
 			return 0, nil
+		}
+		if f.Stall > 0 {
+			time.Sleep(f.Stall) // the failing read blocks that long first (an error that surfaces at the end of a poll)
 		}
 		return 0, f.Err
 	}
